@@ -631,6 +631,7 @@ func runC02(c *Ctx) {
 		}
 	}
 	_ = token.NoPos
+	c02ReplayFilter(c, c.W)
 }
 
 func c02Variants() []Variant {
@@ -1124,4 +1125,42 @@ func newCtxCut(w *World) ctxCut {
 		return feasible, nilRound
 	}
 	return cut
+}
+
+// c02ReplayFilter (S9): the replay of the node's own vote records does not filter by vote kind.
+func c02ReplayFilter(c *Ctx, w *World) {
+	c.Rule("C02.S9", "SIBLINGS", "every persisted kind survives a restart: the functions that read and validate the node's own vote records on start (ReadVoteData, VerifySignature and the restore function of NewVoteDB) treat all vote kinds alike — none of them compares the record's VoteType with a constant. A range test written against the step kinds (Prevote … NextIndex) drops the Certificate record, whose value lies after NextIndex: after a kill in a certificate round the node signs a second certificate vote")
+	c.Min(2)
+	newDB := w.Fn(uconPkg, "", "NewVoteDB")
+	fns := []*ssa.Function{w.Fn(uconPkg, "", "ReadVoteData"), w.Fn(uconPkg, "", "VerifySignature")}
+	if r := findVoteRestore(newDB); r != nil {
+		fns = append(fns, r)
+	}
+	vi := w.Named(uconPkg, "VoteItem")
+	for _, fn := range fns {
+		c.sawFunc(fname(fn))
+		c.sites++
+		bad := ""
+		for _, in := range allInstrs(fn) {
+			bo, ok := in.(*ssa.BinOp)
+			if !ok {
+				continue
+			}
+			switch bo.Op {
+			case token.LSS, token.GTR, token.LEQ, token.GEQ, token.EQL, token.NEQ:
+			default:
+				continue
+			}
+			isKind := func(v ssa.Value) bool {
+				f, base := loadedField(stripConvNoBind(v))
+				return f != nil && f.Name() == "VoteType" && base != nil && types.Identical(deref(base.Type()), vi)
+			}
+			_, xk := stripConvNoBind(bo.X).(*ssa.Const)
+			_, yk := stripConvNoBind(bo.Y).(*ssa.Const)
+			if (isKind(bo.X) && yk) || (isKind(bo.Y) && xk) {
+				bad = w.Pos(bo.Pos())
+			}
+		}
+		c.Check(fname(fn)+"#no-kind-filter-on-replay", fn.Pos(), bad == "", ifelse(bad == "", "the record's kind is not compared with any constant", "the record's VoteType is compared with a constant at "+bad+": records of some persisted kind can be dropped on start, and that kind is then signed a second time in the same round / index"))
+	}
 }
